@@ -588,6 +588,11 @@ def load_corpus(ck):
 
 
 def run(ck):
+    try:  # translation tie broken -> directed search at the translated functions (RB.Proofs.GenC04b)
+        from corr import gen_failure_class
+        gen_failure_class.directed(ck)
+    except ImportError:
+        pass
     quick = ck.tier == 'quick'
     ck.rule = ('histories of 1-3 sessions over generated configurations (1-3 experiments on 1-3 data files: '
                'default / shared / separate / mixed; runs contained in several experiments; 0-3 extra criteria; 1-5 '
